@@ -151,3 +151,19 @@ def blist(xs):
 
 def opt(x, f=str):
     return 'None' if x is None else f'(Some {f(x)})'
+
+
+def coq_eval_many(items, workers=8, timeout=900):
+    """items: list of (name, text). Evaluates them in parallel; returns list of stdout strings (same order)."""
+    from concurrent.futures import ThreadPoolExecutor
+    if not items:
+        return []
+    # build the dependencies once (sequentially, under the lock), then evaluate shards in parallel
+    first = items[0]
+    outs = [None] * len(items)
+    outs[0] = coq_eval(first[0], first[1], timeout=timeout)
+    with ThreadPoolExecutor(max_workers=workers) as ex:
+        futs = {i: ex.submit(coq_eval, n, t, timeout) for i, (n, t) in enumerate(items) if i > 0}
+        for i, f in futs.items():
+            outs[i] = f.result()
+    return outs
